@@ -221,7 +221,7 @@ Fixpoint ptabs_of (l : list tref) : list ptab :=
 
 (* QueryBuilder.do_join after a successful validate (10401de): a Table item without alias that is already among the
    base tables is given the first name "<name><n>", n = 2, 3, ..., that no source of the statement carries; then
-   _joins.append.  taken = alias-or-name of every base table and join item. *)
+   _joins.append.  taken = alias-or-name of every FROM table, the UPDATE target and every join item. *)
 Fixpoint first_free (name : string) (taken : list string) (n fuel : nat) : nat :=
   match fuel with
   | O => n
@@ -231,7 +231,8 @@ Definition do_join (s : qst) (item : tbl) (crit : option (list tref)) : qst :=
   let base := base_tables s in
   let table_in_query :=
       existsb (fun clause => match clause with Some (TTab _) => mem (Some item) base | _ => false end) base in
-  let taken := map table_name (somes base ++ map j_item (q_joins s)) in
+  (* 2def80d: the WITH queries are left out of the names in use (with_() may come before or after the join) *)
+  let taken := map table_name (q_from s ++ somes [option_map TTab (q_update s)] ++ map j_item (q_joins s)) in
   let item' :=
       match item with
       | TTab p => if is_none (pt_alias p) && table_in_query
